@@ -6,7 +6,7 @@ TRUSTED = ["python ast (stdlib)", "RxPY: Subject delivers synchronously in subsc
 
 
 def rules_for(prop):
-    from .rules import mx, st, grp, lv, scan, er, ms, tm, seq, pr, ag
+    from .rules import mx, st, grp, lv, scan, er, ms, tm, seq, pr, ag, io
     from functools import partial as P
 
     def named(f, **kw):
@@ -33,6 +33,9 @@ def rules_for(prop):
                                                           "rxsci/math/formal/stddev.py", "rxsci/math/formal/__init__.py"))],
         "C13": er.RULES + [mx.rule_wc2],
         "C14": ms.RULES,
+        "C15": [io.rule_framing],
+        "C16": [io.rule_compression],
+        "C17": [io.rule_codec],
         "C06": [named(grp.rule_eq1, files=("rxsci/data/split.py",), min_instances=7), named(grp.rule_fw1, heads=("split",)), grp.rule_dp4,
                 named(lv.rule_lv, only=("split_mux._split.on_subscribe",))],
         "C07": [grp.rule_time_split, named(grp.rule_fw1, heads=("time_split",)),
